@@ -19,6 +19,11 @@ CLAIMED = {
   note="Trusted: Go type checker, go/ssa, the explorer; container methods (Head/Pop/Push/MaxPriority) are assumed to behave as a queue.",
   technique="path-sensitive SSA must-follow / guard-dominance analysis, custom checker",
   ref="DESIGN.md section 4 C04"),
+ "C02": dict(
+  text="Static analysis over every path class of LockDB.UnLock/Lock/cancelWaitLock/RemoveLock: the released hold is always the one found by LockId (or the oldest one under the unlock-first flag); refusal replies are reached without any engine mutation; depth arithmetic of unlock (one level vs whole depth, removal exactly when depth reaches 0) is classified per path from the branch history; the re-entrant increment carries its six guards; cancel-wait result codes; the holders' LockId index is kept in step on promotion/release. These are necessary conditions; the holder containers' own behaviour is not decided, hence 'other'.",
+  note="Trusted: Go type checker, go/ssa, the explorer's path classes and branch history; GetLockedLock's containers are assumed to return a hold with the requested LockId.",
+  technique="path-sensitive SSA guard/provenance analysis (value provenance through resolved phis, effect sets on refusal paths), custom checker",
+  ref="DESIGN.md section 4 C02"),
 }
 
 NA = {
